@@ -147,8 +147,13 @@ func runOne(self, repo string, m Mutant) MutantResult {
 		ap := exec.Command("git", "apply", filepath.Join(verifDirForMutants, m.Patch))
 		ap.Dir = work
 		if out, err := ap.CombinedOutput(); err != nil {
-			r.Status, r.Detail = "skipped", "patch does not apply to the current tree: "+strings.TrimSpace(string(out))
-			return r
+			// the tree moved on (a later fix: commit shifted the context): retry with fuzz
+			fz := exec.Command("patch", "-p1", "-s", "-F3", "--no-backup-if-mismatch", "-i", filepath.Join(verifDirForMutants, m.Patch))
+			fz.Dir = work
+			if out2, err2 := fz.CombinedOutput(); err2 != nil {
+				r.Status, r.Detail = "skipped", "patch does not apply to the current tree: "+strings.TrimSpace(string(out))+" / "+strings.TrimSpace(string(out2))
+				return r
+			}
 		}
 	} else {
 		os.WriteFile(filepath.Join(work, m.File), []byte(strings.Replace(string(src), m.Old, m.New, 1)), 0o644)
